@@ -364,4 +364,15 @@ LatestOK(l, t, o) ==
 SegsConsistent == \A k \in 1..Len(segs) : segs[k].bytes = Bytes(SegRecs(log, segs, k))
 NoEmptyInnerSegment == \A k \in 1..Len(segs) - 1 : SegRecs(log, segs, k) # <<>>
 CTypeOK == TypeOK /\ now \in Int /\ pend.on \in BOOLEAN
+
+\* NOT an invariant of the code as it is (and not demanded by C08/C09; it matters
+\* for C02): the epoch cache knows the newest leader epoch present in the log.
+\* A message with a new leader epoch appended to the snapshot's active segment
+\* between DoCleanBegin and DoCleanEnd of a compacting clean is in the live cache
+\* but not in the cache compaction built, and Replace drops it (Rebase only looks
+\* at segments rolled meanwhile).  MC_Cleaner_epochloss.cfg makes TLC exhibit the
+\* 6-step behaviour; harness/commitlog/c08/regression_stimuli/
+\* epoch_entry_lost_in_window.json shows it on the real code.
+EpochCacheKnowsLatest ==
+  pend.on \/ \A i \in DOMAIN log : log[i].ep <= LatestEpoch(epochs)
 =============================================================================
